@@ -396,7 +396,7 @@ def run_case(rec: Recorder, tid: int, src: str, pat_id: str, tmpl_src: str, cat:
         return None
     T = template_tops(tmpl_src, cat)
     t_sids = [rec.tab.sid(c) for c in T]
-    cfg = dict(cfg, shapeOnly=SHAPE_ONLY, docstr=cfg.get('docstr', True))
+    cfg = dict(cfg, shapeOnly=SHAPE_ONLY, docstr=cfg.get('docstr', True), replModule=bool(repl_as_fst), cat=cat)
 
     f = FST(src, 'exec')
     init = rec.state(f)
